@@ -800,6 +800,16 @@ func clip(s string) string {
 
 func opGlob(c *wire.Case, res *wire.Result) {
 	var list []string
+	if c.FdLimit > 0 {
+		// the process may hold FdLimit descriptors at a time while the pattern is expanded
+		var lim syscall.Rlimit
+		if syscall.Getrlimit(syscall.RLIMIT_NOFILE, &lim) == nil {
+			old := lim
+			lim.Cur = uint64(c.FdLimit)
+			syscall.Setrlimit(syscall.RLIMIT_NOFILE, &lim)
+			defer syscall.Setrlimit(syscall.RLIMIT_NOFILE, &old)
+		}
+	}
 	func() {
 		defer func() {
 			if r := recover(); r != nil {
